@@ -8,6 +8,8 @@ func registerMore() {
 	commands["pots-one"] = cmdPotsOne
 	commands["rank-table"] = cmdRankTable
 	commands["holdem-deal"] = cmdHoldemDeal
+	commands["holdem-resume"] = cmdHoldemResume
+	commands["holdem-views"] = cmdHoldemViews
 	commands["seat-random"] = cmdSeatRandom
 	commands["seat-replay"] = cmdSeatReplay
 	commands["seat-explore"] = cmdSeatExplore
